@@ -190,5 +190,15 @@ PROPS['C18'] = dict(
     budget={'quick': 25, 'thorough': 300},
     trusted=T_LP + ['T12 strftime is a pure function of the stored start time'],
     assumptions=['with a time limit the status line depends on the wall clock, which no contract models', 'Solver.solve re-initialisation: bounded stand-in only'])
+PROPS['C09'] = dict(
+    title='Every generated instance is solvable by the solver under the documented flags',
+    functions=[GS + 'create_string_pref', FIO + '_get_simple_pref_list_and_ranks', GS + 'create_quotas', SPA + 'create_project_lecturers',
+               GS + 'create_pref_lists_from_other_lists', SPA + 'create_student_lec_lists', FIO + '_set_lecturers', FIO + '_set_lecturer_ranks', FIO + '_create_pairs_row'],
+    lemmas=['C13/compose', 'C12/spa-compose', 'C09/rank-keys', 'C09/quota-order', 'C08/shares', 'C08/spread-monotone'], level='other',
+    level_text='composition obligations between the generator-side and reader-side contracts, each proved for all sizes: the tie writer\'s postcondition is the tie reader\'s precondition (C13/compose); generated quotas satisfy 0 <= lower <= target <= upper pointwise (C09/quota-order from the spreading lemmas and the accepted-argument postcondition); project lecturers are in range; every (lecturer, student) key the reader looks up is on that lecturer\'s generated list (C09/rank-keys from C12/spa-compose).  NOT proved deductively (bounded stand-in): the text layer between create_instance and _import_from_file, and that both solving modes are correct on the loaded instance (C01-C07 instantiated)',
+    harness=True, bound='n <= 4 agents per side, all four types, LP with 0-2 criteria (+-pc, +-stab) and brute force on every generated file',
+    budget={'quick': 30, 'thorough': 400},
+    trusted=[T['T6'], T['T7'], 'T8 file I/O', 'T10 RNG'],
+    assumptions=['text layer and end-to-end solving: bounded stand-in only'])
 NOT_APPLICABLE = {}
 NOTES = 'see DESIGN.md; ./check Cxx --tier quick|thorough; exit 0 held / 1 VIOLATION / 2 undecided / 3 checker error'
